@@ -134,8 +134,10 @@ Proof.
 Qed.
 
 (* ---------- the static access table ---------- *)
-Inductive role := RApi | RAccept | RConn.
-Definition role_eqb (a b : role) : bool := match a, b with RApi, RApi | RAccept, RAccept | RConn, RConn => true | _, _ => false end.
+(* RApi: the lifecycle calls Start / Stop / Restart (one controlling thread); RQuery: the connection-registry queries, which any
+   goroutine may call at any time *)
+Inductive role := RApi | RAccept | RConn | RQuery.
+Definition role_eqb (a b : role) : bool := match a, b with RApi, RApi | RAccept, RAccept | RConn, RConn | RQuery, RQuery => true | _, _ => false end.
 
 Record row := {
   r_loc : nat;                      (* struct field (static location) *)
@@ -145,8 +147,8 @@ Record row := {
   r_own : bool                      (* the object is the accessing connection goroutine's own *)
 }.
 
-(* two distinct threads of these roles may run concurrently: everything but two API threads (the API is called from one
-   thread) *)
+(* two distinct threads of these roles may run concurrently: everything but two lifecycle threads (Start / Stop / Restart are
+   called from one controlling thread; registry queries are not: they are RQuery and run together with everything) *)
 Definition may_run_together (a b : role) : bool := negb (role_eqb a RApi && role_eqb b RApi).
 
 Definition common_lock (a b : row) : bool :=
